@@ -151,6 +151,13 @@ pub fn optimise(rule: &Rule, sw: u8, hash_seed: u64) -> Result<Rule, PanicInfo> 
 
 /// The rule's expression tree as text: condition plus identifiers sorted by name.
 pub fn show(rule: &Rule) -> String {
+    match guarded(|| show_unguarded(rule)) {
+        Ok(s) => s,
+        Err(p) => format!("<printing the rule panicked at {}: {}>", p.site(), p.msg),
+    }
+}
+
+fn show_unguarded(rule: &Rule) -> String {
     let mut s = format!("condition: {}", rule.detection.expression);
     let mut keys: Vec<&String> = rule.detection.identifiers.keys().collect();
     keys.sort();
